@@ -382,7 +382,7 @@ def run(tier, replay):
 def conn_verdict(tp, out):
     """Narrow signature of a trace rejected by CodecTrace.tla, from the rejected event and the
     sequence (Reset event) it belongs to."""
-    m = re.search(r'TRACE-REJECTED at event", (\d+)', out)
+    m = re.search(r'TRACE-REJECTED at event",\s*(\d+)', out)
     events = vlib.read_ndjson(tp)
     d = int(m.group(1)) if m else 0
     if d < 1 or d > len(events):
